@@ -24,17 +24,28 @@ Ltac bounded k :=
   do 16 (destruct k as [|k]; [try lia; try (vm_compute; congruence); try (vm_compute; intros; congruence)|]);
   try lia.
 
+Ltac ex_lists :=
+  repeat match goal with
+  | |- StronglySorted _ [] => constructor
+  | |- StronglySorted _ (_ :: _) => constructor
+  | |- Forall _ [] => constructor
+  | |- Forall _ (_ :: _) => constructor
+  | |- pos_lt _ _ => unfold pos_lt; cbn; lia
+  end.
+
 Lemma ex_code : filter_tokens false ex_toks = ex_toks.
 Proof. vm_compute. reflexivity. Qed.
 
 Lemma ex_wf : py_wf_descs ex_toks ex_ds.
 Proof.
   constructor.
-  - repeat constructor.
-  - repeat constructor; cbn [pd_start pd_name pd_hend pd_bstart pd_bend ex_ds]; try lia;
-      try (vm_compute; congruence); try (cbn [length ex_toks]; lia).
+  - unfold ex_toks. ex_lists; reflexivity.
+  - unfold ex_ds. ex_lists; cbn [pd_start pd_name pd_hend pd_bstart pd_bend].
+    all: repeat match goal with |- _ /\ _ => split end.
+    all: try lia; try (vm_compute; congruence); try (cbn [length ex_toks]; lia).
     all: try (intros k Hk; bounded k).
     all: try (intros Hk; cbn [length ex_toks] in Hk; lia).
+    all: intros _; split; vm_compute; [reflexivity | intros; discriminate].
   - intros i j di dj Hij Hi Hj.
     destruct i as [|[|i]]; destruct j as [|[|j]]; try lia; cbn in Hi, Hj;
       try (destruct j; discriminate); try (destruct i; discriminate).
@@ -42,7 +53,7 @@ Proof.
 Qed.
 
 Lemma ex_sorted : StronglySorted pos_lt ex_toks.
-Proof. repeat constructor; unfold pos_lt; cbn; lia. Qed.
+Proof. unfold ex_toks. ex_lists. Qed.
 
 Example ex_scan : scan_file LPython ex_toks = py_expected_all ex_toks ex_ds ex_ds.
 Proof.
